@@ -166,12 +166,16 @@ def check(an, rep, tier):
     wrong_order = None
     for r in rets:
         v = r.value
-        if isinstance(v, ast.Call) and (prog.dotted(v.func) or '').endswith(
-                'np.array'):
-            dt = [k for k in v.keywords if k.arg == 'dtype' and
-                  isinstance(k.value, ast.Name) and k.value.id == 'float']
-            if not dt:
-                continue
+        # (the float64 kind of the result is decided by S-kind below on the
+        # abstract run; here only WHAT is enumerated, in which order)
+        while isinstance(v, ast.Call) and \
+                isinstance(v.func, ast.Attribute) and \
+                v.func.attr in ('copy', 'astype') and \
+                isinstance(v.func.value, ast.Call):
+            v = v.func.value
+        if isinstance(v, ast.Call) and (prog.dotted(v.func) or '').split(
+                '.')[-1] in ('array', 'asarray', 'asanyarray',
+                             'ascontiguousarray') and v.args:
             a0 = v.args[0]
             if isinstance(a0, ast.Name):
                 good += 1               # np.array(y, dtype=float)
@@ -191,7 +195,37 @@ def check(an, rep, tier):
             '' if good == 2 else 'cached and uncached branches no longer '
             'return the same kind of array in batch order (%d of %d)'
             % (good, len(rets)), line=fe.node.lineno, file=fe.module.path)
+    # --- S-kind: whatever kind of array (float32, integer, list) the oracle
+    # hands back, the request wrapper returns float64 values -- on the cached
+    # and on the uncached path (cores, QR and maxvol then run in double
+    # precision; both paths return the same values)
+    from .. import interp as _interp
+    for v_ in (dict(f='cb', I='I[m,d]', info='dict'),
+               dict(f='cb', I='I[m,d]', info='dict', cache='dict')):
+        I_ = _interp.Interp(prog, {'split': dict(specs.DEFAULT_SPLIT),
+                                   'summary': dict(specs.DEFAULT_SUMMARY)})
+        I_.run_function(fe, specs.build_args(v_, 3))
+        for j_, rv_ in enumerate(I_.entry_returns):
+            if rv_.k == 'none':
+                continue
+            if rv_.k == 'arr' and rv_.dt == 'f':
+                st_, det_ = 'ok', ''
+            elif rv_.k in ('arr', 'top') and any(
+                    isinstance(l_, tuple) and l_[0] == 'CB'
+                    for l_ in rv_.org):
+                st_, det_ = 'violation', \
+                    'the object the oracle returned is handed on as it is ' \
+                    '(no conversion to a float64 array): a float32 / ' \
+                    'integer oracle then runs the whole sweep in its own ' \
+                    'kind, and the cached path returns other values'
+            else:
+                st_, det_ = 'unknown', 'result %r' % (rv_,)
+            rep.add('S-kind', 'cross._func_eval', 'values returned %s a cache '
+                    'are float64 (return path %d)'
+                    % ('with' if 'cache' in v_ else 'without', j_), st_, det_,
+                    line=fe.node.lineno, file=fe.module.path)
     P.check_func_eval(prog, rep)
+    P.check_request_siblings(prog, rep)
     P.check_stop_writers(prog, rep, functions={'cross.cross',
                                                 'cross._func_eval',
                                                 'utils._info_appr'})
@@ -205,4 +239,5 @@ def check(an, rep, tier):
     rep.floor('S-tensordot', 4, 'folds')
     rep.floor('P-fresh-info', 3, 'info freshness')
     rep.floor('P-cache-value', 1, 'cache value')
+    rep.floor('S-kind', 2, 'float64 oracle values')
     rep.floor('P-cache-uses', 1, 'cache uses')
